@@ -15,7 +15,7 @@ TEXT = {
  "C05": "logic_pointwise + truth table + invert/make_boolean theorems, incl. the repaired scalar short-cuts.",
  "C06": "clip_restricts_exactly (bisect/iloc model proved against the window predicate on both limits), mask_where_pointwise, where_tuple_is_clip, mask_tuple_masks_the_interval, isna_notna_indicators.",
  "C07": "fillna_scalar_pointwise, fillna_function_pointwise (the repaired fillna(0) + g.fillna(0)*isna pipeline), ffill_fills_from_the_left, bfill_fills_from_the_right (defined points unchanged; undefined points take the last / next defined value).",
- "C08": "value_sums, integral, mean, var (through the percentile pipeline as the code does): theorems pending; correspondence + oracle (exact on dyadic data, 1e-9 otherwise).",
+ "C08": "listed_pieces_are_pieces_of_the_function (the finite pieces denote f, unbounded pieces excluded), value_sums_maps_each_value_to_its_total_length, integral_and_mean_are_length_weighted, var_is_the_weighted_mean_squared_deviation (proved through the pipeline the code uses: value sums -> ecdf -> percentile table -> squared deviation -> clip to [0, 100] -> integral / 100, for every well-formed function with a finite defined piece). std = numpy.sqrt(var) is irrational-valued and outside the rational model: tied to var by the correspondence check only (std^2 vs var, 1e-9). Timedelta-valued results on datetime domains: correspondence (domain flavours).",
  "C09": "ecdf, percentile, fractile, median, mode, hist, describe: theorems pending; correspondence + oracle on power-of-two totals (exact) and general totals (tolerant).",
  "C10": "values_in_range_is_exactly_the_value_set (iff, for all 8 rows of the bisect-side table, bounded / half-bounded / unbounded windows, using density of the rational domain), sorted without duplicates, min / max are the least / greatest element. Windows need lower < upper (the code rejects others in clip/agg). Correspondence puts window end points on every step point for every row.",
  "C11": "a_slice_is_the_restriction, slicer statistics = statistics of the slice (the slicer maps over the intervals), slicer max / min = greatest / least value f takes at a defined point of the interval with the interval's own closedness (via C10 and one-sided limits), resample_is_piecewise_the_statistic (increasing non-overlapping slices; a slice whose statistic is undefined stays undefined). What mean / integral / median / mode of a slice are is C08 / C09; hist over slices, agg([...]) and apply are Python glue covered by the slicecall flavours.",
